@@ -61,7 +61,21 @@ def gen_layers(rng, ndim):
 def generate(rng, tier):
     m = gen_mesh(rng, tier)
     cells = build_mesh(m)
-    return {"mesh": m, "view": gen_view(rng, m, cells), "direction": gen_direction(rng, m["ndim"]), "layers": gen_layers(rng, m["ndim"]),
+    view = gen_view(rng, m, cells)
+    direction = gen_direction(rng, m["ndim"])
+    if m["ndim"] == 3 and rng.random() < 0.08:
+        # corner clip: the plane cuts off a corner of the domain, all cut cells lie on one side of it
+        box = m["scale"]
+        corner = [rng.choice([0.0, 1.0]) for _ in range(3)]
+        out = [c - 0.5 for c in corner]
+        sgn = rng.choice([1.0, -1.0])
+        direction = {"kind": "vec", "v": [round(sgn * (o + rng.uniform(-0.3, 0.3)), 3) or 0.1 for o in out]}
+        d = rng.uniform(-0.25, 0.1) * min(c["dx"] for c in cells) / box
+        view["origin"] = [box * (c + 2 * o * d) for c, o in zip(corner, out)]
+        view["origin_unit"] = m["unit"]
+        if rng.random() < 0.7:
+            view["dx"], view["dy"] = None, None
+    return {"mesh": m, "view": view, "direction": direction, "layers": gen_layers(rng, m["ndim"]),
             "call_mode": rng.choice([None, None, "image"]), "sched": draw_schedule_config(rng, maxT=8)}
 
 
